@@ -144,11 +144,8 @@ func (ctx *Context) WriteError(err error) error {
 		return nil
 	}
 
-	codec := share.Codecs[req.SerializeType()]
-	if codec == nil {
-		return fmt.Errorf("can not find codec for %d", req.SerializeType())
-	}
-
+	// no codec is needed to report an error: the message travels in the metadata.
+	// (Requiring one left a request with an unknown serialize type without any response.)
 	res := req.Clone()
 	res.SetMessageType(protocol.Response)
 
